@@ -49,6 +49,12 @@ CHECKS = {
         text="Responses are produced by the independent encoder in every definite length form chosen per nesting level, for every value type over its range, lists of 0..200, on seven levels; the monitor compares what Client.multiget delivers with what vf.ber reads from the same bytes and checks that re-encoded Message/ScopedPDU/USM parameters/PDU carry the same content.",
         ref="DESIGN.md 4/C06",
     ),
+    "C07": dict(
+        cat="exploration",
+        technique="runtime monitoring: seam log of (request-id sent, request-id answered) vs outcome under a clock that advances on every read",
+        text="Every read of time.time advances by a drawn increment so second boundaries fall between any two reads; echoing agent must be accepted for all operations and levels (incl. discovery); request-id perturbations (also on error responses), discovery message-id perturbations and community/version faults must be refused with the documented exception and no data.",
+        ref="DESIGN.md 4/C07",
+    ),
     "C08": dict(
         cat="exploration",
         technique="runtime monitoring: exception class/offending-OID monitor over the full error-status x error-index x operation x level matrix",
